@@ -1,6 +1,7 @@
 import GoframeModel.Ops.Group
 import GoframeModel.Spec.Group
-import GoframeModel.Lemmas.Refine
+import GoframeModel.Lemmas.RefineE
+import GoframeModel.Lemmas.Group
 /-
   C05 — grouped Sum/Mean/Count equal the per-group arithmetic and conserve totals.
   Arithmetic is exact (finite floats are rationals); rounding is outside the model (DESIGN §3.4).
@@ -11,7 +12,7 @@ open Goframe Frame
 /-- every Go integer and float width counts as numeric (the repaired type table is total on widths) -/
 theorem numOf_all_widths : (∀ ty v, (numOf (.int ty v)).isSome = true) ∧ (∀ s v, (numOf (.flt s v)).isSome = true) ∧
     numOf .nil = none ∧ (∀ s, numOf (.str s) = none) ∧ (∀ b, numOf (.bool b) = none) := by
-  sorry
+  exact ⟨fun _ _ => rfl, fun _ _ => rfl, rfl, fun _ => rfl, fun _ => rfl⟩
 
 /-- the pinned table dropped `int64` (what FromSQL yields for INTEGER columns): finding D6 -/
 theorem pinned_drops_int64 : numOfPinned (.int .int64 5) = none ∧ numOf (.int .int64 5) = some (.fin 5) := by
@@ -28,7 +29,13 @@ theorem gsum_spec (g : Grouped) (cols : List Str) (hne : cols ≠ []) (hnd : col
       out.get? sGroupKey = some { name := sGroupKey, data := g.keyOrder } ∧
       ∀ c ∈ cols, out.get? c = some { name := c, data :=
         (g.keyOrder.map (fun key => Cell.flt false (Spec.groupSumSpec (rowsOfKey g key) c))) } := by
-  sorry
+  have hcols : (if cols.isEmpty then g.allColumnNames else cols) = cols := by
+    cases cols with
+    | nil => exact absurd rfl hne
+    | cons _ _ => rfl
+  unfold Grouped.sum
+  rw [hcols]
+  exact Grouped.aggWith_spec g cols _ hnd hgk
 
 /-- `Mean(cols…)`: sum divided by the number of numeric cells; 0 for a group without numeric cell -/
 theorem gmean_spec (g : Grouped) (cols : List Str) (hne : cols ≠ []) (hnd : cols.Nodup)
@@ -37,7 +44,13 @@ theorem gmean_spec (g : Grouped) (cols : List Str) (hne : cols ≠ []) (hnd : co
       out.get? sGroupKey = some { name := sGroupKey, data := g.keyOrder } ∧
       ∀ c ∈ cols, out.get? c = some { name := c, data :=
         (g.keyOrder.map (fun key => Cell.flt false (Spec.groupMeanSpec (rowsOfKey g key) c))) } := by
-  sorry
+  have hcols : (if cols.isEmpty then g.allColumnNames else cols) = cols := by
+    cases cols with
+    | nil => exact absurd rfl hne
+    | cons _ _ => rfl
+  unfold Grouped.mean
+  rw [hcols]
+  exact Grouped.aggWith_spec g cols _ hnd hgk
 
 /-- `Count(cols…)`: the number of rows of the group, for every requested column -/
 theorem gcount_spec (g : Grouped) (cols : List Str) (hnd : cols.Nodup) (hgk : sGroupKey ∉ cols) :
@@ -45,7 +58,7 @@ theorem gcount_spec (g : Grouped) (cols : List Str) (hnd : cols.Nodup) (hgk : sG
       out.get? sGroupKey = some { name := sGroupKey, data := g.keyOrder } ∧
       ∀ c ∈ cols, out.get? c = some { name := c, data :=
         (g.keyOrder.map (fun key => Cell.int .int (rowsOfKey g key).length)) } := by
-  sorry
+  exact Grouped.aggWith_spec g cols _ hnd hgk
 
 /-- sum of finite values is the rational sum -/
 def ratSum (qs : List Rat) : Rat := qs.foldl (· + ·) 0
@@ -55,13 +68,19 @@ cells are finite add up to the column total. -/
 theorem gsum_conserves (ks : List Str) (rows : List Row) (c : Str)
     (hp : ∀ r ∈ rows, ∀ x ∈ Spec.keyTuple ks r, x.plain = true)
     (hfin : ∀ r ∈ rows, ∀ v, numOf (Row.getD r c) = some v → ∃ q, v = .fin q) :
-    FVal.sum ((Spec.groupsSpec ks rows).map (fun g => Spec.groupSumSpec g.2 c)) = Spec.groupSumSpec rows c := by
-  sorry
+    FVal.sum ((Spec.groupsSpec ks rows).map (fun g => Spec.groupSumSpec g.2 c)) = Spec.groupSumSpec rows c :=
+  Spec.groupSum_conserves ks rows c hp hfin
 
 /-- with no column arguments Sum covers every non-key column (of a frame with at least one row) -/
 theorem gsum_default_cols {f : Frame} {n : Nat} (hs : f.Sorted) (hr : f.RectN n) (hn : 0 < n) (k : Str)
     (hk : f.has k = true) (g : Grouped) (hg : f.groupByString k = .ok g) :
     ∀ c, c ∈ g.allColumnNames ↔ (c ∈ f.keys ∧ c ≠ k) := by
-  sorry
+  have hne : f ≠ [] := by
+    intro h; subst h; simp [Frame.has] at hk
+  have hpos : 0 < f.nrows := by rw [Frame.nrows_of_rectN hr hne]; exact hn
+  simp only [groupByString, hk, Bool.not_true, Bool.false_eq_true, if_false, Outcome.ok.injEq] at hg
+  subst hg
+  intro c
+  exact Grouped.foldRows_allColumnNames (fun r => Row.getD r k) k f hpos c
 
 end Goframe.C05
